@@ -15,7 +15,8 @@
 //!   c03_purity repeat <seed> <out.ndjson>
 //!       pure operations (subset, instance, whole_font, WOFF/WOFF2 decoding) run twice in this
 //!       process; digests recorded per run (the driver also runs this in a second process).
-use allsorts::binary::read::ReadScope;
+use allsorts::binary::read::{ReadCache, ReadScope};
+use allsorts::layout::{ClassDef, Coverage};
 use allsorts::bitmap::BitDepth;
 use allsorts::error::ParseError;
 use allsorts::font::{Font, GlyphTableFlags, MatchingPresentation};
@@ -34,6 +35,9 @@ use std::rc::Rc;
 use vh::fontgen::*;
 use vh::sup::{guarded, Outcome};
 use vh::util::{read_ndjson, repo_root, NdWriter};
+
+#[path = "c03_purity/imgenc.rs"]
+mod imgenc;
 
 // ---- fonts ------------------------------------------------------------------------------------
 
@@ -239,7 +243,7 @@ fn damaged_variants(bases: &[FontCfg], kinds: &[String], modes: &[Mode], dropped
             c.name = format!("{}~{}:{}", b.name, kinds.join("+"), mode_name(m));
             c.fam = "dmg";
             c.damage = Damage { items: tags.iter().flatten().map(|t| (*t, m.clone())).collect() };
-            c.desc = json!({"fam": "dmg", "damaged": kinds, "lookups": []});
+            c.desc = json!({"fam": "dmg", "damaged": kinds, "lookups": [], "imgs": 7, "sub": ""});
             if *m == Mode::Half || damage_takes_effect(&c, kinds) {
                 v.push(c);
             } else {
@@ -298,12 +302,30 @@ fn lspecs(lookups: &Value) -> Vec<LSpec> {
         .unwrap_or_default()
 }
 
-/// glyph of a letter in the collide fonts
+/// glyph of a character in the collide and fill fonts: 'A'..'Z' 1..26, U+25CC 27, '0'..'9' 28..37, '/' 38,
+/// ' ' 39, 'a'..'z' 40..65; a single substitution adds COLLIDE_DELTA, so the fonts have LAYOUT_GLYPHS glyphs
 fn gid(c: char) -> u16 {
-    (c as u32 - 'A' as u32 + 1) as u16
+    match c {
+        'A'..='Z' => (c as u32 - 'A' as u32 + 1) as u16,
+        '\u{25CC}' => 27,
+        '0'..='9' => (c as u32 - '0' as u32 + 28) as u16,
+        '/' => 38,
+        ' ' => 39,
+        'a'..='z' => (c as u32 - 'a' as u32 + 40) as u16,
+        _ => panic!("no glyph for {:?}", c),
+    }
 }
+fn layout_cmap() -> Vec<(u32, u16)> {
+    let mut v: Vec<(u32, u16)> = ('A'..='Z').chain('a'..='z').chain('0'..='9').chain("/ \u{25CC}".chars()).map(|c| (c as u32, gid(c))).collect();
+    v.sort();
+    v
+}
+const LAYOUT_GLYPHS: usize = 110;
 const COLLIDE_TEXT: &str = "ABCIXEXFXG";
 const COLLIDE_DELTA: u16 = 32;
+/// texts shaped on the fill fonts: two fractions, the letters of the keyed features / every letter
+const KEYS_TEXT: &str = "1/2 ABCDEFGHIJKLM 12/21";
+const LETTERS_TEXT: &str = "ABCDEFGHIJKLMNOPQRSTUVWXYZabcdefghijklmnopqrstuvwxyz";
 
 struct Img {
     buf: Vec<u8>,
@@ -498,9 +520,8 @@ fn walk_layout(tbl: &str, data: &[u8], specs: &[LSpec]) -> Option<usize> {
 
 fn collide_font(name: &str, desc: &Value) -> FontCfg {
     let specs = lspecs(&desc["lookups"]);
-    let mut f = TtFont::new((0..72).map(|i| if i == 0 { GlyphSpec::Empty } else { triangle(i as i16) }).collect());
-    f.cmap = ('A'..='Z').map(|c| (c as u32, gid(c))).collect();
-    f.cmap.push((0x25CC, 27));
+    let mut f = TtFont::new((0..LAYOUT_GLYPHS).map(|i| if i == 0 { GlyphSpec::Empty } else { triangle(i as i16) }).collect());
+    f.cmap = layout_cmap();
     let mut feats: Vec<String> = specs.iter().map(|s| s.feat.clone()).filter(|x| x != "none").collect();
     feats.sort();
     feats.dedup();
@@ -509,13 +530,22 @@ fn collide_font(name: &str, desc: &Value) -> FontCfg {
             f.extra_tables.push((tbl.into(), build_layout(tbl, &specs)));
         }
     }
+    let fam = match desc["fam"].as_str() {
+        Some("fill") => "fill",
+        _ => "collide",
+    };
+    let words: Vec<String> = match desc["sub"].as_str() {
+        Some("keys") => vec![KEYS_TEXT.into(), "3/4".into(), "ABC".into()],
+        Some("lookups") => vec![LETTERS_TEXT.into(), "AaBbZz".into()],
+        _ => vec![COLLIDE_TEXT.into(), "XEXFXGABCI".into(), "AEI".into()],
+    };
     FontCfg {
         name: name.into(),
         data: f.build(),
         scripts: [tagv("latn"), tagv("grek")],
         lang: tagv("dflt"),
-        words: vec![COLLIDE_TEXT.into(), "XEXFXGABCI".into(), "AEI".into()],
-        fam: "collide",
+        words,
+        fam,
         damage: Damage::default(),
         desc: desc.clone(),
         l2feats: feats.iter().filter(|f| specs.iter().any(|s| &s.feat == *f && s.l2)).cloned().collect(),
@@ -632,7 +662,54 @@ fn tagv(s: &str) -> u32 {
 }
 
 fn plain_desc() -> Value {
-    json!({"fam": "intact", "damaged": [], "lookups": []})
+    json!({"fam": "intact", "damaged": [], "lookups": [], "imgs": 15, "sub": ""})
+}
+
+// ---- fonts with several embedded-image tables ------------------------------------------------------
+
+/// A font that carries the image tables of the bit set `imgs` (1 SVG, 2 CBDT, 4 sbix, 8 EBDT), every one
+/// of them with an image of the glyphs 1..=5.
+fn img_font(imgs: u8) -> FontCfg {
+    let mut f = TtFont::new(vec![GlyphSpec::Empty, triangle(0), triangle(10), triangle(20), triangle(30), triangle(40)]);
+    f.cmap = vec![(0x41, 1), (0x42, 2), (0x43, 3), (0x25CC, 4), (0x1F600, 5)];
+    for (tag, bytes) in imgenc::tables(imgs, 6) {
+        f.extra_tables.push((tag, bytes));
+    }
+    let kinds: Vec<&str> = [(imgenc::SVG, "svg"), (imgenc::CBDT, "cbdt"), (imgenc::SBIX, "sbix"), (imgenc::EBDT, "ebdt")]
+        .iter().filter(|(b, _)| imgs & b != 0).map(|(_, n)| *n).collect();
+    FontCfg {
+        name: format!("img-{}", kinds.join("+")),
+        data: f.build(),
+        scripts: [tagv("latn"), tagv("grek")],
+        lang: tagv("dflt"),
+        words: vec!["A\u{1F600}".into(), "A\u{25CC}".into()],
+        fam: "img",
+        damage: Damage::default(),
+        desc: json!({"fam": "img", "damaged": [], "lookups": [], "imgs": imgs, "sub": ""}),
+        feats: vec![],
+        l2feats: vec![],
+    }
+}
+
+/// Independent look at an img font (own sfnt reader, plain byte search): every table of the bit set is
+/// there and holds the payload of glyph 1, no other image table is there.
+fn img_selfcheck(cfg: &FontCfg) -> Value {
+    let imgs = cfg.desc["imgs"].as_u64().unwrap_or(0) as u8;
+    let dir = read_sfnt_dir(&cfg.data, 0).expect("sfnt");
+    let mut ok = 0;
+    let mut stray = 0;
+    for (bit, loc, dat) in [(imgenc::SVG, "SVG ", "SVG "), (imgenc::CBDT, "CBLC", "CBDT"), (imgenc::SBIX, "sbix", "sbix"), (imgenc::EBDT, "EBLC", "EBDT")] {
+        let l = table_bytes(&cfg.data, &dir, loc);
+        let d = table_bytes(&cfg.data, &dir, dat);
+        if imgs & bit != 0 {
+            if l.is_some() && d.map(|t| imgenc::holds_payload(bit, t, 1)).unwrap_or(false) {
+                ok += 1;
+            }
+        } else if l.is_some() || d.is_some() {
+            stray += 1;
+        }
+    }
+    json!({"font": cfg.name, "imgs": imgs, "tables_expected": imgs.count_ones(), "tables_found_with_payload": ok, "stray_tables": stray})
 }
 
 fn fonts() -> Vec<FontCfg> {
@@ -714,7 +791,7 @@ fn collide_desc(tbls: &[&str], shift: usize, far: usize) -> Value {
         lookups.push(single(6, "none", 3712 + shift, "EFG"));
         lookups.push(single(256, "smcp", 3856 + shift, "I"));
     }
-    json!({"fam": "collide", "damaged": [], "lookups": lookups})
+    json!({"fam": "collide", "damaged": [], "lookups": lookups, "imgs": 0, "sub": ""})
 }
 
 // ---- concrete calls ---------------------------------------------------------------------------
@@ -729,10 +806,23 @@ enum Call {
     Table { kind: String },
     Image { g: u16, ppem: u16 },
     HasImages,
-    SetFilter { bits: u8, name: String },
+    SetFilter { bits: u8, f: u8 },
     HAdvance { g: u16 },
     VAdvance { g: u16 },
     GlyphNames { g: Vec<u16> },
+    /// scopes family: a Coverage / ClassDef read through a ReadCache from a scope derived by `route`
+    ReadCached { route: String, kind: String, pos: usize, content: String },
+}
+
+/// GlyphTableFlags of a filter of the model (1 SVG, 2 CBDT, 4 sbix, 8 EBDT)
+fn filter_bits(f: u8) -> u8 {
+    (if f & imgenc::SVG != 0 { 1 << 2 } else { 0 })
+        | (if f & imgenc::CBDT != 0 { 1 << 4 } else { 0 })
+        | (if f & imgenc::SBIX != 0 { 1 << 3 } else { 0 })
+        | (if f & imgenc::EBDT != 0 { 1 << 5 } else { 0 })
+}
+fn set_filter(f: u8) -> Call {
+    Call::SetFilter { bits: filter_bits(f), f }
 }
 
 fn vs_of(v: Option<u8>) -> Option<VariationSelector> {
@@ -772,7 +862,13 @@ fn exec<T: FontTableProvider>(font: &mut Font<T>, c: &Call) -> String {
             }
         }
         Call::Image { g, ppem } => match font.lookup_glyph_image(*g, *ppem, BitDepth::ThirtyTwo) {
-            Ok(Some(b)) => format!("Some {:?} {:?} {:?}", b.ppem_x, b.ppem_y, b.metrics),
+            Ok(Some(b)) => {
+                let data = match &b.bitmap {
+                    allsorts::bitmap::Bitmap::Embedded(e) => format!("embedded {}x{} {}", e.width, e.height, fnv(&e.data)),
+                    allsorts::bitmap::Bitmap::Encapsulated(e) => format!("encapsulated {}", fnv(&e.data)),
+                };
+                format!("Some {:?} {:?} {:?} {}", b.ppem_x, b.ppem_y, b.metrics, data)
+            }
             Ok(None) => "None".into(),
             Err(e) => format!("Err {:?}", e),
         },
@@ -795,7 +891,75 @@ fn exec<T: FontTableProvider>(font: &mut Font<T>, c: &Call) -> String {
             };
             format!("{:?}", r)
         }
+        Call::ReadCached { .. } => "n/a".into(),
     }
+}
+
+/// scopes family: the subject is a pair of ReadCaches over one buffer, not a Font
+fn exec_scope<'a>(scope: ReadScope<'a>, cov: &mut ReadCache<Coverage>, cls: &mut ReadCache<ClassDef>, c: &Call) -> String {
+    let (route, kind, pos, content) = match c {
+        Call::ReadCached { route, kind, pos, content } => (route.as_str(), kind.as_str(), *pos, content),
+        _ => return "n/a".into(),
+    };
+    let len = if kind == "cov" { coverage_bytes(content).len() } else { classdef_bytes(content).len() };
+    let derived: Result<ReadScope<'a>, String> = match route {
+        "offset" => Ok(scope.offset(pos)),
+        "offset_length" => scope.offset_length(pos, len).map_err(|e| format!("{:?}", e)),
+        "read_scope" => {
+            let mut ctxt = scope.ctxt();
+            match ctxt.read_slice(pos) {
+                Ok(_) => ctxt.read_scope(len).map_err(|e| format!("{:?}", e)),
+                Err(e) => Err(format!("{:?}", e)),
+            }
+        }
+        _ => scope.offset_length(pos - 16, len + 32).and_then(|w| w.offset_length(16, len)).map_err(|e| format!("{:?}", e)),
+    };
+    let sc = match derived {
+        Ok(sc) => sc,
+        Err(e) => return format!("Err scope {}", e),
+    };
+    if kind == "cov" {
+        match sc.read_cache::<Coverage>(cov) {
+            Ok(c) => format!("Ok cov {:?}", (0..LAYOUT_GLYPHS as u16).map(|g| c.glyph_coverage_value(g)).collect::<Vec<_>>()),
+            Err(e) => format!("Err {:?}", e),
+        }
+    } else {
+        match sc.read_cache::<ClassDef>(cls) {
+            Ok(c) => format!("Ok cls {:?}", (0..LAYOUT_GLYPHS as u16).map(|g| c.glyph_class_value(g)).collect::<Vec<_>>()),
+            Err(e) => format!("Err {:?}", e),
+        }
+    }
+}
+
+fn run_both_scopes(cfg: &FontCfg, history: &[Call], probe: &Call) -> (String, String) {
+    let data = &cfg.data[..];
+    let run = |history: &[Call]| match guarded(|| {
+        let scope = ReadScope::new(data);
+        let mut cov = ReadCache::<Coverage>::new();
+        let mut cls = ReadCache::<ClassDef>::new();
+        for c in history {
+            let _ = exec_scope(scope, &mut cov, &mut cls, c);
+        }
+        exec_scope(scope, &mut cov, &mut cls, probe)
+    }) {
+        Outcome::Returned(s) => s,
+        Outcome::Panicked(m) => format!("PANIC {}", vh::sup::panic_key(&m)),
+    };
+    (run(history), run(&[]))
+}
+
+/// The buffer of the scopes family: every object at the position the calls name.
+fn scopes_buffer(objs: &[(String, usize, String)]) -> Vec<u8> {
+    let mut img = Img { buf: vec![], used: vec![] };
+    let mut seen = std::collections::BTreeSet::new();
+    for (kind, pos, content) in objs {
+        if seen.insert(*pos) {
+            img.put(*pos, &if kind == "cov" { coverage_bytes(content) } else { classdef_bytes(content) });
+        }
+    }
+    let n = img.buf.len() + 64;
+    img.buf.resize(n, 0);
+    img.buf
 }
 
 fn with_font<R>(data: &[u8], dmg: &Damage, f: impl FnOnce(&mut Font<Wrap<'_>>) -> R) -> Option<R> {
@@ -810,6 +974,9 @@ fn with_font<R>(data: &[u8], dmg: &Damage, f: impl FnOnce(&mut Font<Wrap<'_>>) -
 /// A panic inside a call of the history ends the life of that Font object: the probe is then not
 /// applicable and the first component is "HISTORY-PANIC ..." (the panic is C01's to report).
 fn run_both(cfg: &FontCfg, history: &[Call], probe: &Call) -> (String, String) {
+    if cfg.fam == "scopes" {
+        return run_both_scopes(cfg, history, probe);
+    }
     let data = &cfg.data[..];
     let after = match guarded(|| with_font(data, &cfg.damage, |font| {
         for c in history {
@@ -840,7 +1007,27 @@ fn run_both(cfg: &FontCfg, history: &[Call], probe: &Call) -> (String, String) {
     (after, fresh)
 }
 
-const FILTER_DEFAULT: u8 = (1 << 2) | (1 << 3) | (1 << 4);
+
+/// Script identity of the model -> tag: s1 / s2 are the font's two scripts, s<n> is a script nobody has heard of
+/// (ScriptType::Default, falls back to the DFLT script of the font).
+fn script_of(id: &str, cfg: &FontCfg) -> u32 {
+    match id.strip_prefix('s').and_then(|n| n.parse::<u32>().ok()) {
+        Some(1) | None => cfg.scripts[0],
+        Some(2) => cfg.scripts[1],
+        Some(n) => tag_u32(&format!("z{:03}", n % 1000)),
+    }
+}
+
+/// Language identity of the model -> tag: l0 no language, l1 the font's language, l2 the second language system
+/// (TRK) of the synthesized layouts, l<n> a language nobody has heard of (falls back to the default LangSys).
+fn lang_of(id: &str, cfg: &FontCfg) -> Option<u32> {
+    match id.strip_prefix('l').and_then(|n| n.parse::<u32>().ok()) {
+        Some(0) => None,
+        Some(1) | None => Some(cfg.lang),
+        Some(2) => Some(tagv("TRK ")),
+        Some(n) => Some(tag_u32(&format!("Q{:03}", n % 1000))),
+    }
+}
 
 /// Abstract call (TLC's vocabulary) -> concrete call for a font.
 fn concretise(c: &Value, cfg: &FontCfg) -> Call {
@@ -871,11 +1058,12 @@ fn concretise(c: &Value, cfg: &FontCfg) -> Call {
         }
         "Shape" => {
             let feats: Vec<u32> = c["feats"].as_array().map(|a| a.iter().map(|f| tag_u32(f.as_str().unwrap())).collect()).unwrap_or_default();
-            let collide = cfg.fam == "collide";
+            // fonts whose layout the model knows: the mask / custom list is the set of features the call names
+            let collide = cfg.fam == "collide" || (cfg.fam == "fill" && !cfg.feats.is_empty());
             Call::Shape {
             text: cfg.words[0].clone(),
-            script: if s("script") == "s1" { cfg.scripts[0] } else { cfg.scripts[1] },
-            lang: Some(if s("lang") == "l2" { tagv("TRK ") } else { cfg.lang }),
+            script: script_of(s("script"), cfg),
+            lang: lang_of(s("lang"), cfg),
             // m1 and m2 must stay different after gsub_apply_default intersects them with the
             // features the font supports (the cache key uses the intersected mask); on a collide font
             // the mask is the set of features the call names
@@ -893,10 +1081,12 @@ fn concretise(c: &Value, cfg: &FontCfg) -> Call {
         "Table" => Call::Table { kind: s("k").to_string() },
         "Image" => Call::Image { g: c["g"].as_u64().unwrap_or(1) as u16, ppem: 100 },
         "HasImages" => Call::HasImages,
-        "SetFilter" => match s("f") {
-            "default" => Call::SetFilter { bits: FILTER_DEFAULT, name: "default".into() },
-            "empty" => Call::SetFilter { bits: 0, name: "empty".into() },
-            _ => Call::SetFilter { bits: 1 << 5, name: "bw".into() },
+        "SetFilter" => set_filter(c["f"].as_u64().unwrap_or(0) as u8),
+        "ReadCached" => Call::ReadCached {
+            route: s("route").to_string(),
+            kind: c["obj"]["kind"].as_str().unwrap_or("cov").to_string(),
+            pos: c["obj"]["pos"].as_u64().unwrap_or(0) as usize,
+            content: c["obj"]["content"].as_str().unwrap_or("").to_string(),
         },
         "HAdvance" => Call::HAdvance { g: c["g"].as_u64().unwrap_or(1) as u16 },
         "VAdvance" => Call::VAdvance { g: c["g"].as_u64().unwrap_or(1) as u16 },
@@ -912,6 +1102,29 @@ struct Universe {
     collide: BTreeMap<String, Vec<Rc<FontCfg>>>,
     dropped: usize,
     selfchecks: Vec<Value>,
+    img: BTreeMap<u8, Vec<Rc<FontCfg>>>,
+    img_selfchecks: Vec<Value>,
+    img_fresh: Vec<Value>,
+    fill: BTreeMap<String, Vec<Rc<FontCfg>>>,
+    fill_selfchecks: Vec<Value>,
+}
+
+/// Facts about a fill font measured on its bytes (own reader): every Coverage of the layout lies where the
+/// layout says with the content it says; how many lookups and how many different Coverage contents there are.
+fn fill_selfcheck(cfg: &FontCfg) -> Value {
+    let specs = lspecs(&cfg.desc["lookups"]);
+    let dir = read_sfnt_dir(&cfg.data, 0).expect("sfnt");
+    let (mut found, mut expected) = (0usize, 0usize);
+    for tbl in ["GSUB", "GPOS"] {
+        if let Some(t) = table_bytes(&cfg.data, &dir, tbl) {
+            expected += specs.iter().filter(|s| s.tbl == tbl).map(|s| s.objs.len()).sum::<usize>();
+            found += walk_layout(tbl, t, &specs).unwrap_or(0);
+        }
+    }
+    let contents: std::collections::BTreeSet<(String, String)> = specs.iter().flat_map(|s| s.objs.iter().map(move |o| (s.tbl.clone(), o.content.clone()))).collect();
+    let positions: std::collections::BTreeSet<(String, usize)> = specs.iter().flat_map(|s| s.objs.iter().map(move |o| (s.tbl.clone(), o.pos))).collect();
+    json!({"font": cfg.name, "sub": cfg.desc["sub"], "lookups": specs.len(), "objects_expected": expected, "objects_found_at_position": found,
+           "distinct_coverage_contents": contents.len(), "distinct_coverage_positions": positions.len(), "features": cfg.feats.len()})
 }
 
 impl Universe {
@@ -919,7 +1132,8 @@ impl Universe {
         let intact = fonts();
         let bases = damage_bases(&intact);
         let intact = intact.into_iter().map(Rc::new).collect();
-        Universe { intact, bases, dmg: BTreeMap::new(), collide: BTreeMap::new(), dropped: 0, selfchecks: vec![] }
+        Universe { intact, bases, dmg: BTreeMap::new(), collide: BTreeMap::new(), dropped: 0, selfchecks: vec![],
+                   img: BTreeMap::new(), img_selfchecks: vec![], img_fresh: vec![], fill: BTreeMap::new(), fill_selfchecks: vec![] }
     }
 
     fn of(&mut self, desc: &Value, modes: &[Mode]) -> Vec<Rc<FontCfg>> {
@@ -944,8 +1158,172 @@ impl Universe {
                 }
                 self.collide[&key].clone()
             }
+            "img" => {
+                let imgs = desc["imgs"].as_u64().unwrap_or(0) as u8;
+                if !self.img.contains_key(&imgs) {
+                    let cfg = img_font(imgs);
+                    self.img_selfchecks.push(img_selfcheck(&cfg));
+                    self.img_fresh.push(img_fresh_results(&cfg));
+                    self.img.insert(imgs, vec![Rc::new(cfg)]);
+                }
+                self.img[&imgs].clone()
+            }
+            "fill" => {
+                let sub = desc["sub"].as_str().unwrap_or("").to_string();
+                let key = format!("{}/{}", sub, desc["lookups"].as_array().map(|a| a.len()).unwrap_or(0));
+                if !self.fill.contains_key(&key) {
+                    let v: Vec<Rc<FontCfg>> = if sub == "complex" {
+                        // fonts whose script has a shaper of its own (one get_lookups_cache_index per stage)
+                        self.intact.iter().filter(|c| ["lohit-hi", "noto-naskh"].contains(&c.name.as_str())).map(|c| {
+                            let mut f = (**c).clone();
+                            f.name = format!("fill-complex-{}", c.name);
+                            f.fam = "fill";
+                            f.desc = desc.clone();
+                            Rc::new(f)
+                        }).collect()
+                    } else {
+                        let cfg = collide_font(&format!("fill-{}", sub), desc);
+                        self.fill_selfchecks.push(fill_selfcheck(&cfg));
+                        vec![Rc::new(cfg)]
+                    };
+                    self.fill.insert(key.clone(), v);
+                }
+                self.fill[&key].clone()
+            }
             _ => self.intact.clone(),
         }
+    }
+}
+
+/// What allsorts answers on FRESH fonts (diagnostic, judged by the driver only after the violations): on an img
+/// font the image found under a filter is a function of the table the model selects - filters that select
+/// different tables give different images, filters that select the same table the same image.
+fn img_fresh_results(cfg: &FontCfg) -> Value {
+    let imgs = cfg.desc["imgs"].as_u64().unwrap_or(0) as u8;
+    let sel = |f: u8| [imgenc::SVG, imgenc::CBDT, imgenc::SBIX, imgenc::EBDT].iter().copied().find(|b| imgs & f & b != 0).unwrap_or(0);
+    let mut by_sel: BTreeMap<u8, std::collections::BTreeSet<String>> = BTreeMap::new();
+    for f in 0..16u8 {
+        let (_, fresh) = run_both(cfg, &[set_filter(f)], &Call::Image { g: 1, ppem: 100 });
+        by_sel.entry(sel(f)).or_default().insert(fresh);
+    }
+    let all: std::collections::BTreeSet<&String> = by_sel.values().flatten().collect();
+    json!({"font": cfg.name, "selections": by_sel.len(), "distinct_images": all.len(),
+           "one_image_per_selection": by_sel.values().all(|v| v.len() == 1),
+           "none_under_empty_selection": by_sel.get(&0).map(|v| v.iter().all(|r| r == "None")).unwrap_or(true)})
+}
+
+fn scopes_cfg(objs: &[(String, usize, String)]) -> FontCfg {
+    FontCfg {
+        name: "scopes".into(),
+        data: scopes_buffer(objs),
+        scripts: [tagv("latn"), tagv("grek")],
+        lang: tagv("dflt"),
+        words: vec![],
+        fam: "scopes",
+        damage: Damage::default(),
+        desc: json!({"fam": "scopes", "damaged": [], "lookups": [], "imgs": 0, "sub": ""}),
+        feats: vec![],
+        l2feats: vec![],
+    }
+}
+
+/// Facts about a history that depend on the calls only (never on what allsorts answered).
+#[derive(Default)]
+struct InputFacts {
+    /// img: histories in which a filter was set after an image query had been made under another filter ...
+    widen_after_query: usize,   // ... that the new one strictly contains
+    narrow_after_query: usize,  // ... that strictly contains the new one
+    other_after_query: usize,   // ... neither
+    same_after_query: usize,    // the same filter again
+    img_histories: usize,
+    /// fill: per sub-family, the largest number of distinct keys before a probe
+    fill_keys: BTreeMap<String, usize>,
+    /// fill/keys: fraction-path probes on a key the font object has not seen, after >= 100 distinct keys
+    frac_probes_new_key_after_100: usize,
+    scopes_routes_in_paths: std::collections::BTreeSet<String>,
+    scopes_histories: usize,
+}
+
+const FRAC_BIT: u64 = FeatureMask::FRAC.bits();
+const RVRN_BIT: u64 = FeatureMask::RVRN.bits();
+
+/// The (script, language, mask) keys a shaping call with Features::Mask creates in lookups_index on a font that
+/// supports every feature of the mask (the synthesized keys font): RVRN is taken out, FRAC makes two keys.
+fn mask_keys(c: &Call) -> Vec<(u32, Option<u32>, u64)> {
+    match c {
+        Call::Shape { script, lang, mask, custom: false, .. } => {
+            let m = mask & !RVRN_BIT;
+            if m & FRAC_BIT != 0 { vec![(*script, *lang, m), (*script, *lang, m & !FRAC_BIT)] } else { vec![(*script, *lang, m)] }
+        }
+        _ => vec![],
+    }
+}
+
+impl InputFacts {
+    fn history(&mut self, cfg: &FontCfg, history: &[Call], fan: &[Call]) {
+        match cfg.fam {
+            "img" => {
+                self.img_histories += 1;
+                let mut cur = 7u8;
+                let mut queried = false;
+                let (mut w, mut n, mut o, mut same) = (false, false, false, false);
+                for c in history {
+                    match c {
+                        Call::SetFilter { f, .. } => {
+                            if queried {
+                                if *f == cur { same = true } else if f & cur == cur { w = true } else if f & cur == *f { n = true } else { o = true }
+                            }
+                            if *f != cur {
+                                queried = false;
+                            }
+                            cur = *f;
+                        }
+                        _ => queried = true,
+                    }
+                }
+                self.widen_after_query += w as usize;
+                self.narrow_after_query += n as usize;
+                self.other_after_query += o as usize;
+                self.same_after_query += same as usize;
+            }
+            "fill" => {
+                let sub = cfg.desc["sub"].as_str().unwrap_or("").to_string();
+                let n = match sub.as_str() {
+                    "keys" => {
+                        let keys: std::collections::BTreeSet<_> = history.iter().flat_map(mask_keys).collect();
+                        if keys.len() >= 100 {
+                            self.frac_probes_new_key_after_100 += fan.iter().filter(|c| {
+                                let k = mask_keys(c);
+                                k.len() == 2 && k.iter().all(|x| !keys.contains(x))
+                            }).count();
+                        }
+                        keys.len()
+                    }
+                    "complex" => history.iter().filter_map(|c| match c { Call::Shape { script, lang, .. } => Some((*script, *lang)), _ => None })
+                        .collect::<std::collections::BTreeSet<_>>().len(),
+                    _ => history.iter().filter_map(|c| match c { Call::Shape { ctags, .. } => Some(ctags.clone()), _ => None })
+                        .flatten().collect::<std::collections::BTreeSet<_>>().len(),
+                };
+                let e = self.fill_keys.entry(sub).or_default();
+                *e = (*e).max(n);
+            }
+            "scopes" => {
+                self.scopes_histories += 1;
+                for c in history {
+                    if let Call::ReadCached { route, .. } = c {
+                        self.scopes_routes_in_paths.insert(route.clone());
+                    }
+                }
+            }
+            _ => {}
+        }
+    }
+
+    fn json(&self) -> Value {
+        json!({"img_histories": self.img_histories, "img_widen_after_query": self.widen_after_query, "img_narrow_after_query": self.narrow_after_query,
+               "img_incomparable_after_query": self.other_after_query, "img_same_filter_after_query": self.same_after_query,
+               "fill_distinct_keys_before_probe": self.fill_keys, "fill_frac_probes_on_new_key_after_100_keys": self.frac_probes_new_key_after_100,
+               "scopes_histories": self.scopes_histories, "scopes_routes_in_paths": self.scopes_routes_in_paths})
     }
 }
 
@@ -967,14 +1345,27 @@ fn replay(cases: &str, out: &str) {
     let mut dmg_error_probes = 0usize; // probes on damaged fonts whose fresh answer reports the damage
     let mut n_cut = 0usize; // probes not applicable because a call of the history panicked
     let mut concrete = std::collections::BTreeSet::new();
+    let mut facts = InputFacts::default();
     for (ci, case) in cases.iter().enumerate() {
         let desc = &case["font"];
         let fam = desc["fam"].as_str().unwrap_or("intact").to_string();
-        for cfg in &uni.of(desc, &[Mode::Trunc(3), Mode::Fail]) {
+        let cfgs = if fam == "scopes" {
+            // the buffer holds every object the calls of the case name
+            let objs: Vec<(String, usize, String)> = case["fan"].as_array().unwrap().iter().map(|f| &f["call"]).chain(case["path"].as_array().unwrap().iter())
+                .filter(|c| c["op"] == "ReadCached")
+                .map(|c| (c["obj"]["kind"].as_str().unwrap().to_string(), c["obj"]["pos"].as_u64().unwrap() as usize, c["obj"]["content"].as_str().unwrap().to_string()))
+                .collect();
+            vec![Rc::new(scopes_cfg(&objs))]
+        } else {
+            uni.of(desc, &[Mode::Trunc(3), Mode::Fail])
+        };
+        for cfg in &cfgs {
             concrete.insert(cfg.name.clone());
             let case_id = format!("{}/g{}", cfg.name, ci);
             let path: Vec<Value> = case["path"].as_array().unwrap().clone();
             let history: Vec<Call> = path.iter().map(|c| concretise(c, cfg)).collect();
+            let fan_calls: Vec<Call> = case["fan"].as_array().unwrap().iter().map(|f| concretise(&f["call"], cfg)).collect();
+            facts.history(cfg, &history, &fan_calls);
             *fam_hist.entry(fam.clone()).or_default() += 1;
             i += 1;
             w.write(&json!({"i": i, "case": case_id, "ev": "Init", "a": {"font": cfg.desc, "name": cfg.name}, "o": {}}));
@@ -1016,7 +1407,8 @@ fn replay(cases: &str, out: &str) {
         "probes": n_probes, "differs": n_differs, "events": n, "probes_cut_by_a_panic_in_the_history": n_cut,
         "histories_by_family": fam_hist, "probes_by_family": fam_probes, "differs_by_family": fam_differs,
         "damaged_variants": uni.dmg.values().map(|v| v.len()).sum::<usize>(), "damaged_variants_dropped": uni.dropped,
-        "damaged_probes_reporting_the_error": dmg_error_probes, "collide_selfcheck": uni.selfchecks}));
+        "damaged_probes_reporting_the_error": dmg_error_probes, "collide_selfcheck": uni.selfchecks,
+        "img_selfcheck": uni.img_selfchecks, "img_fresh_results": uni.img_fresh, "fill_selfcheck": uni.fill_selfchecks, "input_facts": facts.json()}));
 }
 
 // ---- random long histories --------------------------------------------------------------------
@@ -1067,18 +1459,24 @@ fn abstract_of(c: &Call, cfg: &FontCfg) -> Value {
                 (*lang != Some(tagv("TRK ")) || cfg.l2feats.contains(f))
                     && if *custom { ctags.contains(&t) } else { FeatureMask::from_tag(t).bits() & *mask != 0 }
             }).collect();
+            // the fraction path (two indices of cached_lookups held at once) is taken when the mask, intersected
+            // with the features of the language system, has FRAC
+            let frac = !*custom && eff & FRAC_BIT != 0;
+            let m = |x: u64| if *custom { format!("custom{:?}", ctags) } else { format!("{:x}", x) };
             json!({"op": "Shape", "text": text, "script": format!("{:08x}", script), "lang": format!("{:?}", lang),
-                   "mask": if *custom { format!("custom{:?}", ctags) } else { format!("{:x}", eff) },
+                   "mask": m(eff), "mask0": m(eff & !FRAC_BIT), "frac": frac,
                    "tuple": match tuple { None => "none".to_string(), Some(t) => format!("{:?}", t) }, "kern": kern,
                    "custom": custom, "feats": feats})
         }
         Call::Table { kind } => json!({"op": "Table", "k": kind}),
         Call::Image { g, .. } => json!({"op": "Image", "g": g}),
         Call::HasImages => json!({"op": "HasImages"}),
-        Call::SetFilter { name, .. } => json!({"op": "SetFilter", "f": name}),
+        Call::SetFilter { f, .. } => json!({"op": "SetFilter", "f": f}),
         Call::HAdvance { g } => json!({"op": "HAdvance", "g": g}),
         Call::VAdvance { g } => json!({"op": "VAdvance", "g": g}),
         Call::GlyphNames { g } => json!({"op": "GlyphNames", "g": g}),
+        Call::ReadCached { route, kind, pos, content } => json!({"op": "ReadCached", "route": route,
+            "obj": {"kind": kind, "pos": pos, "rel": pos, "content": content}}),
     }
 }
 
@@ -1168,10 +1566,11 @@ fn random_call(rng: &mut StdRng, cfg: &FontCfg) -> Call {
         },
         14 => Call::Image { g: rng.gen_range(0..6), ppem: [16, 100, 300][rng.gen_range(0..3)] },
         15 => Call::HasImages,
-        16 => match rng.gen_range(0..3) {
-            0 => Call::SetFilter { bits: FILTER_DEFAULT, name: "default".into() },
-            1 => Call::SetFilter { bits: 0, name: "empty".into() },
-            _ => Call::SetFilter { bits: 1 << 5, name: "bw".into() },
+        16 => match rng.gen_range(0..4) {
+            0 => set_filter(7),
+            1 => set_filter(0),
+            2 => set_filter(imgenc::EBDT),
+            _ => set_filter(rng.gen_range(0..16)),
         },
         17 => Call::HAdvance { g: rng.gen_range(0..8) },
         18 => Call::VAdvance { g: rng.gen_range(0..8) },
